@@ -70,8 +70,19 @@ Systematic ==
 \* ---- systematic programs for the notation exporters (C19)
 Pn(n, o) == <<[n |-> n, o |-> o, ch |-> 1, vel |-> 64]>>
 Titled(p, ti, au, su) == [bpm |-> p.bpm, repeat |-> p.repeat, tracks |-> p.tracks, title |-> ti, author |-> au, subtitle |-> su]
-Texts == {<<"Untitled", "", "">>, <<"A & B", "J. S. <Bach>", "op. \"1\"">>, <<"Tom's <tune> & more", "me & you", "x > y">>}
+Texts == {<<"Untitled", "", "">>, <<"A & B", "J. S. <Bach>", "op. \"1\"">>, <<"Tom's <tune> & more", "me & you", "x > y">>,
+          \* characters outside ASCII are written {code point} on the specification side (the harness transliterates both ways)
+          <<"F{252}r Elise", "Anton{237}n Dvo{345}{225}k", "n{176} 1 {8212} {26376}">>}
+\* tracks in which a bar's content comes back (a repeated phrase; the same notes under another key or meter)
+BarOf(k, m, ents) == [key |-> k, meter |-> m, entries |-> ents]
+PhraseA == <<Ent(Q, Pn(<<"C">>, 4)), Ent(Q, Pn(<<"E">>, 4)), Ent(Q, <<>>), Ent(Q, Pn(<<"G">>, 4))>>
+PhraseB == <<Ent(Q, Pn(<<"D">>, 4)), Ent(Q, Pn(<<"F">>, 4))>>
+Repeats == {[bpm |-> 120, repeat |-> 0, tracks |-> <<[name |-> <<76, 101, 97, 100>>, instr |-> NoInstr, bars |-> bs]>>] :
+              bs \in {<<BarOf(<<"C">>, <<4,4>>, PhraseA), BarOf(<<"C">>, <<4,4>>, PhraseB), BarOf(<<"C">>, <<4,4>>, PhraseA), BarOf(<<"C">>, <<4,4>>, PhraseB)>>,
+                      <<BarOf(<<"C">>, <<4,4>>, PhraseA), BarOf(<<"C">>, <<4,4>>, PhraseA), BarOf(<<"C">>, <<4,4>>, PhraseA)>>,
+                      <<BarOf(<<"G">>, <<4,4>>, PhraseB), BarOf(<<"e">>, <<2,4>>, PhraseB), BarOf(<<"C">>, <<4,4>>, PhraseA)>>}}
 Systematic19 ==
+  Repeats \cup
   {OneBarProg(<<"C">>, <<4,4>>, <<Ent(Q, Pn(n, o))>>, NoInstr, 0) : n \in N35, o \in 0..8} \cup
   {OneBarProg(<<"C">>, <<8,1>>, <<Ent(v, Pn(<<"C">>, 4)), Ent(v, <<>>)>>, NoInstr, 0) : v \in Vocabulary} \cup
   {OneBarProg(<<"C">>, <<8,1>>, <<Ent(v, Pn(<<"D">>, 4) \o Pn(<<"F","#">>, 4) \o Pn(<<"A","b">>, 5)), Ent(w, Pn(<<"C">>, 3)), Ent(v, <<>>), Ent(Q, Pn(<<"E">>, 4))>>, NoInstr, 0) :
